@@ -46,6 +46,7 @@ pub fn dict_program(rng: &mut Rng) -> (Program, usize) {
         ss.push(Stmt::Push { array: pvar(&d), value: Some(PushRhs::List(vec![strlit("first"), strlit("second")])) });
     }
     let mut used: Vec<Lit> = Vec::new();
+    let mut entries_kv: Vec<(Lit, Expr)> = Vec::new();
     let family = if rng.chance(1, 3) { Some(*rng.pick(CONFUSABLE)) } else { None };
     for i in 0..nkeys {
         let k = match family {
@@ -58,12 +59,27 @@ pub fn dict_program(rng: &mut Rng) -> (Program, usize) {
         }
         used.push(k.clone());
         let val = if all_strings || rng.chance(3, 4) { strlit(&format!("v{}", i)) } else { num(i as f64) };
+        entries_kv.push((k.clone(), val.clone()));
         ss.push(Stmt::Assign { dest: Lhs::Sub(Box::new(pvar(&d)), Box::new(Prim::Lit(k))), op: None, value: vec![val] });
     }
     let entries = used.len();
     let n = rng.range(1, 3);
     for _ in 0..n {
-        match rng.below(9) {
+        match rng.below(11) {
+            9 | 10 => {
+                // the same dictionary built a second time, independently (entries in another order), compared
+                let t = simple("Twin");
+                let mut kv = entries_kv.clone();
+                kv.reverse();
+                if rng.coin() {
+                    rng.shuffle(&mut kv);
+                }
+                for (k, v) in kv {
+                    ss.push(Stmt::Assign { dest: Lhs::Sub(Box::new(pvar(&t)), Box::new(Prim::Lit(k))), op: None, value: vec![v] });
+                }
+                ss.push(say(bin(BinOp::Eq, var(&d), var(&t))));
+                ss.push(say(bin(BinOp::NotEq, var(&t), var(&d))));
+            }
             0 | 1 | 2 => {
                 // join (into a copy, so several observations fit one program)
                 let param = if rng.coin() { Some(strlit(*rng.pick(&[",", "", " + "]))) } else { None };
